@@ -166,29 +166,30 @@ theorem C13_nested_filter_copy (h : RHeap) (col : Nat) (p : Pred) (row : PVal) :
 
 open Pydap.RowHeap in
 /-- **Serving a request never writes a source record.**  For every source (objects of any representation),
-    every stream of record values, every chain of maps (any number of clauses on nested and on outer columns,
-    `fix_nested`, column selections), with or without the `filter(bool, …)` of a nested clause, any number of type
+    every stream of record values, every list of filters (`op(a(row), b(row))` of clauses on outer columns, `bool` of
+    clauses on nested columns) and every chain of maps (any number of clauses on nested and on outer columns,
+    `fix_nested`, column selections), any number of type
     lookups (`IterData.dtype`: the maps run on the first source record) followed by the full iteration — and also
     when any of these raises midway: every source object is as before, and every store reached went to an object
     the request allocated. -/
-theorem C13_rows_frame (src : List PObj) (stream : List PVal) (maps : List RMap) (dropEmpty : Bool) (peeks : Nat) :
-    (serveRows maps dropEmpty ⟨src, []⟩ stream peeks).heap.src = src ∧
-    (∀ s ∈ (serveRows maps dropEmpty ⟨src, []⟩ stream peeks).log, ∃ i, s.target = .own i) :=
-  have f := serveRows_frame maps dropEmpty stream peeks ⟨src, []⟩
+theorem C13_rows_frame (src : List PObj) (stream : List PVal) (filts : List RFilt) (maps : List RMap) (peeks : Nat) :
+    (serveRows filts maps ⟨src, []⟩ stream peeks).heap.src = src ∧
+    (∀ s ∈ (serveRows filts maps ⟨src, []⟩ stream peeks).log, ∃ i, s.target = .own i) :=
+  have f := serveRows_frame filts maps stream peeks ⟨src, []⟩
   ⟨f.1.src, fun s hs => (f.2 s hs).imp fun _ h => h.1⟩
 
 open Pydap.RowHeap in
 /-- **The nested-filter step obeys the ownership discipline of `C13_noninterference`**, hence: any number of
     requests, each with its own maps, evaluated against ONE served source under ANY schedule — every source object
     `(none, i)` keeps its initial value, and every request the schedule lets finish has the outputs of its solo run. -/
-theorem C13_rows_noninterference (src : List PObj) (stream : List PVal) (maps : Nat → List RMap)
-    (dropEmpty : Nat → Bool) (peeks : Nat → Nat) (h0 : Heap GLoc RVal) (σ : List Nat) :
-    let P := fun t => rowProgram src stream (maps t) (dropEmpty t) (peeks t) t
+theorem C13_rows_noninterference (src : List PObj) (stream : List PVal) (filts : Nat → List RFilt)
+    (maps : Nat → List RMap) (peeks : Nat → Nat) (h0 : Heap GLoc RVal) (σ : List Nat) :
+    let P := fun t => rowProgram src stream (filts t) (maps t) (peeks t) t
     Disciplined (fun l : GLoc => l.1) P ∧
     (∀ i, (run (init h0 P) σ).heap (none, i) = h0 (none, i)) ∧
     (∀ t, (P t).length ≤ σ.count t → ((run (init h0 P) σ).th t).outs = (solo h0 (P t)).2.outs) := by
   intro P
-  have hD : Disciplined (fun l : GLoc => l.1) P := rows_disciplined src stream maps dropEmpty peeks
+  have hD : Disciplined (fun l : GLoc => l.1) P := rows_disciplined src stream filts maps peeks
   exact ⟨hD, fun i => (C13_noninterference _ P h0 hD σ).2.2.2 (none, i) rfl,
          fun t ht => (C13_complete_outputs _ P h0 hD σ t ht).1⟩
 
@@ -224,9 +225,9 @@ example : (recurseTupleOnly ⟨[⟨.nprec, [.atom 1, .ref (.src 1)]⟩] ++ exSrc
 
 /-- a whole request (two type lookups, then the iteration, maps `[nest, fix_nested]`) produces real stores, all into
     objects of the request; a raising evaluation (the second record is a number) keeps the stores made before -/
-example : (serveRows [.nest 1 exPred, .fixNested [false, true]] true ⟨exSrc, []⟩ [.ref (.src 0)] 2).log.length = 3 ∧
-    (serveRows [.nest 1 exPred] true ⟨exSrc, []⟩ [.ref (.src 0), .atom 5] 0).err? = some .typeError ∧
-    (serveRows [.nest 1 exPred] true ⟨exSrc, []⟩ [.ref (.src 0), .atom 5] 0).log.length = 1 := by decide
+example : (serveRows [.truthy] [.nest 1 exPred, .fixNested [false, true]] ⟨exSrc, []⟩ [.ref (.src 0)] 2).log.length = 3 ∧
+    (serveRows [.truthy] [.nest 1 exPred] ⟨exSrc, []⟩ [.ref (.src 0), .atom 5] 0).err? = some .typeError ∧
+    (serveRows [.truthy] [.nest 1 exPred] ⟨exSrc, []⟩ [.ref (.src 0), .atom 5] 0).log.length = 1 := by decide
 
 end RowExamples
 
